@@ -506,13 +506,11 @@ func decode(thread *starlark.Thread, b *starlark.Builtin, args starlark.Tuple, k
 				num := s[i:j]
 				i = j
 
-				// Unlike most C-like languages,
-				// JSON disallows a leading zero before a digit.
-				digits := num
-				if num[0] == '-' {
-					digits = num[1:]
-				}
-				if digits == "" || digits[0] == '0' && len(digits) > 1 && isdigit(digits[1]) {
+				// The scan above is permissive, and so are
+				// strconv.ParseFloat and big.Int.SetString
+				// (which accept "1.", "-.5", and so on):
+				// check the literal against the JSON grammar.
+				if !validNumber(num) {
 					fail("invalid number: %s", num)
 				}
 
@@ -559,4 +557,60 @@ func decode(thread *starlark.Thread, b *starlark.Builtin, args starlark.Tuple, k
 
 func isdigit(b byte) bool {
 	return b >= '0' && b <= '9'
+}
+
+// validNumber reports whether s is a number according to RFC 8259:
+//
+//	-? (0 | [1-9][0-9]*) (\.[0-9]+)? ([eE][+-]?[0-9]+)?
+//
+// Unlike most C-like languages, JSON disallows a leading zero before
+// a digit, a decimal point without digits on both sides, and an
+// exponent without digits.
+func validNumber(s string) bool {
+	if s != "" && s[0] == '-' {
+		s = s[1:]
+	}
+
+	// integer part
+	if s == "" {
+		return false
+	}
+	if s[0] == '0' {
+		s = s[1:]
+	} else if '1' <= s[0] && s[0] <= '9' {
+		s = skipDigits(s[1:])
+	} else {
+		return false
+	}
+
+	// fraction
+	if s != "" && s[0] == '.' {
+		s = s[1:]
+		if s == "" || !isdigit(s[0]) {
+			return false
+		}
+		s = skipDigits(s)
+	}
+
+	// exponent
+	if s != "" && (s[0] == 'e' || s[0] == 'E') {
+		s = s[1:]
+		if s != "" && (s[0] == '+' || s[0] == '-') {
+			s = s[1:]
+		}
+		if s == "" || !isdigit(s[0]) {
+			return false
+		}
+		s = skipDigits(s)
+	}
+
+	return s == ""
+}
+
+// skipDigits returns s without its leading decimal digits.
+func skipDigits(s string) string {
+	for s != "" && isdigit(s[0]) {
+		s = s[1:]
+	}
+	return s
 }
